@@ -1280,12 +1280,11 @@ impl Options {
                 None => 9,
             };
             let exp = max!(min_exp.abs(), max_exp) as usize;
-            if cfg!(feature = "power-of-two") && exp < 13 {
-                // 11 for the exponent digits in binary, 1 for the sign, 1 for the symbol
+            if exp < 13 {
+                // 11 for the exponent digits in binary, 1 for the sign, 1 for the symbol.
+                // Decimal exponents only have 3 digits, but the integer writer asks
+                // for room for any 10-digit `u32`, plus the sign and symbol.
                 count += 13;
-            } else if exp < 5 {
-                // 3 for the exponent digits in decimal, 1 for the sign, 1 for the symbol
-                count += 5;
             } else {
                 // More leading or trailing zeros than the exponent digits.
                 count += exp;
